@@ -140,6 +140,7 @@ func runC08(p *Prog, r *Report, tier string) {
 		"No function on this path rejects for any other reason. The limit is stored under ToLower(denom) as key and Denom, and looked up under ToLower(burnToken). Not decided: depositor solvency and the fiat-token-factory's own conditions."
 	r.Assumptions = []string{"go/ssa faithfully represents the module code", "math.Int GT/IsPositive/IsNil are the relations they name", "strings.EqualFold/sdk.ValidateDenom behave as documented"}
 	r.Trusted = r.Assumptions
+	ctxDiscipline(p, r, txRoots(p, "DepositForBurn", "DepositForBurnWithCaller", "SendMessage", "SendMessageWithCaller"))
 
 	flagGetterContract(p, r, flagBM)
 	foundGetterContract(p, r, "GetPerMessageBurnLimit", "PerMessageBurnLimit/value/", "types.PerMessageBurnLimitKey(p2)", "types.PerMessageBurnLimit{}")
@@ -285,6 +286,7 @@ func runC05(p *Prog, r *Report, tier string) {
 		"Not decided: what bank and fiat-token-factory do with the requests; the sums over histories (they follow from per-deposit equality, C07 nonce uniqueness and C14) are argued, not executed."
 	r.Assumptions = []string{"go/ssa faithfully represents the module code", "bank SendCoinsFromAccountToModule and fiat-token-factory Burn do exactly what they are asked or return an error", "signer verification binds msg.From to the submitter (C10 signer clause)"}
 	r.Trusted = r.Assumptions
+	ctxDiscipline(p, r, txRoots(p, "DepositForBurn", "DepositForBurnWithCaller", "SendMessage", "SendMessageWithCaller", "ReplaceMessage", "ReplaceDepositForBurn"))
 
 	if c := p.fc(r, p.Func("keeper.msgServer.depositForBurn"), "depositForBurn", abDFB[:5]); c != nil {
 		debit := c.oneCall("T-eq", "k.bank.SendCoinsFromAccountToModule")
@@ -395,6 +397,7 @@ func runC06(p *Prog, r *Report, tier string) {
 		"Not decided: the SDK's JSON encoding of typed events; the byte layout produced by Bytes() is C16."
 	r.Assumptions = []string{"go/ssa faithfully represents the module code", "typed-event emission encodes the struct it is given", "Message.Bytes/BurnMessage.Bytes follow the CCTP layout (C16)"}
 	r.Trusted = r.Assumptions
+	ctxDiscipline(p, r, txRoots(p, "DepositForBurn", "DepositForBurnWithCaller", "SendMessage", "SendMessageWithCaller", "ReplaceMessage", "ReplaceDepositForBurn"))
 
 	if c := p.fc(r, p.Func("keeper.msgServer.sendMessage"), "sendMessage", nil); c != nil {
 		if call := c.oneCall("T-eq", "(*types.Message).Bytes"); call != nil {
@@ -525,6 +528,7 @@ func runC07(p *Prog, r *Report, tier string) {
 		"Not decided: the SDK discarding the increment when the send fails after the reservation; the induction over histories (start + number of successes) follows from these shapes; wrap-around at 2^64."
 	r.Assumptions = []string{"go/ssa faithfully represents the module code", "cosmos-sdk discards the state branch of a failed message", "transactions execute sequentially within a block"}
 	r.Trusted = r.Assumptions
+	ctxDiscipline(p, r, txRoots(p, "DepositForBurn", "DepositForBurnWithCaller", "SendMessage", "SendMessageWithCaller", "ReplaceMessage", "ReplaceDepositForBurn"))
 
 	get := "(prefix.Store).Get(" + prefixStore(nonceRegion) + `,[]byte("NextAvailableNonce/value/"))`
 	res := p.Func("keeper.Keeper.ReserveAndIncrementNonce")
@@ -635,6 +639,7 @@ func runC09(p *Prog, r *Report, tier string) {
 		"Neither can reach a store write, a delete or a ledger request; their events are a subset of {MessageSent, DepositForBurn}. There is no other rejection. Not decided: attestation validity itself (C01)."
 	r.Assumptions = []string{"go/ssa faithfully represents the module code", "VerifyAttestationSignatures is sound (C01)"}
 	r.Trusted = r.Assumptions
+	ctxDiscipline(p, r, txRoots(p, "ReplaceMessage", "ReplaceDepositForBurn"))
 
 	parseContracts(p, r)
 	if c := p.fc(r, handlerFn(p, "ReplaceMessage"), "ReplaceMessage", abRPM); c != nil {
@@ -852,6 +857,7 @@ func runC14(p *Prog, r *Report, tier string) {
 		"Not decided: that the SDK discards the message branch (state, ledger calls made through the same context, events) when the handler returns an error — that is what turns an error exit into 'exactly as before'."
 	r.Assumptions = []string{"go/ssa faithfully represents the module code", "cosmos-sdk baseapp discards the cached state and events of a message that returns an error", "bank and fiat-token-factory write through the same cached context"}
 	r.Trusted = r.Assumptions
+	ctxDiscipline(p, r, allTxRoots(p))
 
 	// functions reachable from tx handlers
 	reach := map[*ssa.Function]bool{}
